@@ -58,7 +58,9 @@ def check_instr(ctx, lib, K):
     verdicts = {}
     for sem_name in ("pretest", "bodyonce"):
         def premises(c):
-            return str_ok(c["str0"], K) + str_ok(c["str1"], K) + [z3.Length(c["str1"]) >= 1] + integral(c["index"], 1, K + 1)
+            # the empty pattern occurs at every position of the subject: INSTR returns the start index (start inside the
+            # subject; the corner start = LEN + 1 with an empty pattern is left out, ROM and definition differ there)
+            return str_ok(c["str0"], K) + str_ok(c["str1"], K) + [z3.Or(z3.Length(c["str1"]) >= 1, z3.ToInt(c["index"]) <= z3.Length(c["str0"]))] + integral(c["index"], 1, K + 1)
 
         sem, m, c, leaves = run_proc(proc, premises, sem_name, 40 + 12 * K)
         ctx.stats["states"] += len(leaves)
